@@ -304,8 +304,8 @@ DoFlush(ev) ==
   IN /\ IF ~ev.err /\ ~expErr /\ wroteRoot THEN Flush(s, ev.io.w, ev.pos)
         ELSE IF f # NoFile /\ IsOpen(s) /\ ~stores[s].ro THEN WritesOnly(s, ev.io.w, ev.pos)
         ELSE Stay
-     /\ Report(ErrChkC(ev, expErr, IF stores[s].ro THEN "C04:snapshot-flush-not-refused" ELSE "C02:flush-error-result")
-               \o (IF f # NoFile /\ ~stores[s].ro THEN AppendChk(f, ev.io.w) ELSE ReadPathChk(ev))
+     /\ Report((IF f # NoFile /\ ~stores[s].ro THEN AppendChk(f, ev.io.w) ELSE ReadPathChk(ev))
+               \o ErrChkC(ev, expErr, IF stores[s].ro THEN "C04:snapshot-flush-not-refused" ELSE "C02:flush-error-result")
                \o (IF ~ev.err /\ ~expErr THEN Chk(wroteRoot, "C02:flush-wrote-no-root-record", "new root record", ev.io.w) ELSE <<>>)
                \o Chk(ev.io.t = <<>>, "C09:flush-truncated", <<>>, ev.io.t)
                \o (IF ~ev.err /\ ~expErr
@@ -317,9 +317,9 @@ DoCollWrite(ev) ==
       expErr == stores[s].ro
       f == stores[s].file
   IN /\ IF f # NoFile /\ ~stores[s].ro THEN WritesOnly(s, ev.io.w, ev.pos) ELSE Stay
-     /\ Report(ErrChk(ev, expErr)
-               \o (IF f # NoFile /\ ~stores[s].ro THEN AppendChk(f, ev.io.w) ELSE ReadPathChk(ev))
-               \o Chk(ev.io.t = <<>>, "C09:write-truncated", <<>>, ev.io.t))
+     /\ Report((IF f # NoFile /\ ~stores[s].ro THEN AppendChk(f, ev.io.w) ELSE ReadPathChk(ev))
+               \o Chk(ev.io.t = <<>>, "C09:write-truncated", <<>>, ev.io.t)
+               \o ErrChkC(ev, expErr, IF stores[s].ro THEN "C04:snapshot-write-not-refused" ELSE "C02:write-error-result"))
 
 DoEvict(ev) == Stay /\ Report(ReadPathChk(ev))
 
@@ -353,12 +353,23 @@ DoCopyTo(ev) ==
      THEN /\ Stay
           /\ Report(ErrChkC(ev, FALSE, "C11:copyto-error-result") \o Chk(NoWrites(ev.srcio), "C11:source-written", <<>>, ev.srcio))
      ELSE LET sts == CopyStates(stores[s].colls, ev.fe)
-              endsOK == Len(ev.ends) = Len(sts)
-          IN /\ IF endsOK THEN CopyTo(s, ev.s2, ev.f2, ev.fe, ev.io.w, ev.ends)
-                ELSE CopyTo(s, ev.s2, ev.f2, 0, ev.io.w, <<>>)
+              same == Len(ev.ends) = Len(sts)
+              final == [n \in Names(s) |-> CopiedColl(Coll(s, n))]
+              \* how many intermediate flushes CopyTo makes is not promised (C11
+              \* only promises the final state to be durable): a different
+              \* batching is reported as DRIFT and the model follows the
+              \* implementation's flush boundaries, demanding the last one to
+              \* hold the complete copy
+              drift == IF same THEN TRUE
+                       ELSE PrintT(<<"DRIFT", l, "CopyTo flushed a different number of times than the transcription", Len(sts), Len(ev.ends)>>)
+              usedSts == IF same THEN sts ELSE IF ev.ends = <<>> THEN <<>> ELSE <<final>>
+              usedEnds == IF same THEN ev.ends ELSE IF ev.ends = <<>> THEN <<>> ELSE <<ev.ends[Len(ev.ends)]>>
+          IN /\ drift
+             /\ CopyTo(s, ev.s2, ev.f2, usedSts, ev.io.w, usedEnds)
              /\ Report(ErrChkC(ev, FALSE, "C11:copyto-error-result")
                        \o Chk(NoWrites(ev.srcio), "C11:source-written", <<>>, ev.srcio)
-                       \o Chk(endsOK, "C11:number-of-flushes", Len(sts), ev.ends)
+                       \o Chk(ev.fe <= 0 \/ ev.ends # <<>>, "C11:copy-not-flushed", "at least one flush", ev.ends)
+                       \o Chk(ev.fe > 0 \/ ev.io.w = <<>>, "C11:unflushed-copy-wrote", <<>>, ev.io.w)
                        \o Chk(ev.io.t = <<>>, "C09:copyto-truncated", <<>>, ev.io.t))
 
 \* compactness of a CopyTo destination (C11): one item record per live item,
